@@ -1,4 +1,4 @@
-CONSTANTS MaxPool = 4  MaxOps = 8  MaxNodes = 5  NameIds = {0, 1, 2}  Bug = ""  AllowDetached = FALSE  Emit = FALSE
+CONSTANTS MaxPool = 4  MaxOps = 8  MaxNodes = 5  NameIds = {1, 2}  Bug = ""  AllowDetached = FALSE  Emit = FALSE
 INIT InitFind
 NEXT NextFind
 VIEW ViewFind
